@@ -523,3 +523,19 @@ package stdlibspec
 // goroutinesSpawned: number of `go` statements executed by this thread of control (the
 // verifier increments it at every go statement; C20: exactly one background revalidation)
 //@ ghost var goroutinesSpawned int
+
+// net/url query access (C17 wiring): Query() parses RawQuery afresh on each call; Get returns
+// the first value of a parameter. urlQuery(u, k) names that value as a function of the URL.
+//@ spec func urlQuery(u *url.URL, k string) string
+//@ spec func qvGet(v url.Values, k string) string
+//@ extern (*net/url.URL).Query(u)
+//@   pure
+//@   ensures forall k string :: qvGet(result, k) == urlQuery(u, k)
+//@ extern (net/url.Values).Get(v, key)
+//@   pure
+//@   ensures result == qvGet(v, key)
+//@ extern slices.Clip(s)
+//@   pure
+//@   ensures len(result) == len(s) && (forall i int :: 0 <= i && i < len(s) ==> result[i] == s[i])
+//@ extern time.ParseDuration
+//@   pure
